@@ -253,9 +253,17 @@ theorem C02_handout_fresh (v st : Bool) (bo : Nat) (nr : Bool) (hist : List Op) 
   obtain ⟨hi, _, _, _⟩ := reach_spec v st bo nr hist
   exact (Sys.routed_member hi (.serve cookie mt) (x := y) (by rw [h]; rfl)).2 y f h
 
+/-- every function a handler could apply to the URL object it was handed is one of the modelled
+    rewrites: `Mut.set` overwrites the object with an arbitrary value -/
+theorem C02_any_rewrite_is_modelled (f : URL → URL) (u : URL) : ∃ m : Mut, m.apply u = f u :=
+  ⟨.set (f u), rfl⟩
+
 /-- **C02 (nothing a downstream handler does to its request alters the pool)**: whatever the handler
-    writes, `Servers()` returns the same URLs (userinfo and query included) as before the request,
-    and membership keeps following the administration calls only. -/
+    writes to the object it was handed — `mt` ranges over single-field rewrites and over overwriting
+    the object with *any* value (`Mut.set v`, i.e. any function of the object,
+    `C02_any_rewrite_is_modelled`); the proof uses only that the object is not one of the pool's —
+    `Servers()` returns the same URLs (userinfo and query included) as before the request, and
+    membership keeps following the administration calls only. -/
 theorem C02_downstream_mutation_noop (v st : Bool) (bo : Nat) (nr : Bool) (hist : List Op) (cookie : Option Key)
     (mt : Option Mut) :
     ((reach v st bo nr hist).step (.serve cookie mt)).1.servers = (reach v st bo nr hist).servers ∧
@@ -305,6 +313,9 @@ example : ∀ op ∈ [Op.next, Op.serve (some a.key) (some .host), Op.upsert b n
 -- a failed add: the hypothesis of `C02_failed_add_noop`, and what the model answers
 example : specOf true [.upsert a (some 2)] b.key = none := by decide
 example : ((reach true false 0 true [.upsert a (some 2)]).step (.upsertFailing b none)).2 = .errMeter := by decide
+-- a handler overwriting every field of its URL object leaves the stored URL as it was
+example : ((reach true true 0 false [.upsert a' none]).step
+    (.serve (some a.key) (some (.set ⟨"evil", "evil", "/evil", "evil", "evil=1"⟩)))).1.servers = [a'] := by decide
 -- a sticky request with a URL-rewriting handler is forwarded on a fresh object
 example : ((reach true true 0 false [.upsert a' none]).step (.serve (some a.key) (some .host))).2 = .forwarded a' true := by decide
 
